@@ -87,6 +87,11 @@ func c09Files() Files {
 	f["h4_b.vuego"] = `<p v-if="n > 12">{{ user.name }}</p><i>{{ user.tags[1] }} {{ m.k2 }}</i>`
 	f["h6_page.vuego"] = `<section>ORIGINAL<template include="c_card.vuego" heading="h" :c="canary"></template></section>`
 	f["h11_page.vuego"] = "---\ntitle: Dashboard\nlist: [1, 2]\n---\n" + `<template :greeting="'Hello ' + canary"></template><h1>{{ title }}</h1><i v-for="x in list">{{ x }}{{ canary }}</i><p>{{ greeting }}</p><template :title="canary"></template><b>{{ title }}</b>`
+	// elements whose attribute slices have spare capacity after parsing (3, 5, 6, 7 attributes): an
+	// append to a copy that shares the backing array lands in memory other renders see
+	f["h13_page.vuego"] = `<div :title="canary" class="box" v-html="canary"></div><p class="a" id="p3" v-text="canary"></p>` +
+		`<span style="color:red" v-show="show" v-text="title" class="k" data-a="1"></span><b v-once class="o" id="b3">{{ canary }}</b>` +
+		`<i a="1" b="2" c="3" d="4" e="5" v-html="canary"></i><u a="1" b="2" c="3" d="4" e="5" f="6" v-text="canary"></u><em :class="{on: show}" class="s" style="top:0" :style="{color: color}" v-show="hide">{{ canary }}</em>`
 	f["h4_c.vuego"] = `<p v-if="n > 13">{{ user.name }}</p><i>{{ m.k3 }} {{ objs[0].name }}</i>`
 	return f
 }
@@ -240,13 +245,27 @@ func c09Build(driver string, threads int) [][]c09Call {
 			i := i
 			out[i] = []c09Call{mk("fmvars", func(b *bytes.Buffer) error { return t.Load("h11_page.vuego").Fill(tdata(i)).Render(bg, b) })}
 		}
+	case "H13-attribute-slices-with-spare-capacity-vue":
+		v := vuego.NewVue(files.FS())
+		var warm bytes.Buffer
+		_ = v.Render(&warm, "h13_page.vuego", c09Data())
+		for i := range out {
+			i := i
+			out[i] = []c09Call{mk("attrs", func(b *bytes.Buffer) error { return v.Render(b, "h13_page.vuego", tdata(i)) })}
+		}
+	case "H14-attribute-slices-with-spare-capacity-load":
+		t := vuego.NewFS(files.FS())
+		for i := range out {
+			i := i
+			out[i] = []c09Call{mk("attrs", func(b *bytes.Buffer) error { return t.Load("h13_page.vuego").Fill(tdata(i)).Render(bg, b) })}
+		}
 	default:
 		panic("unknown driver " + driver)
 	}
 	return out
 }
 
-var c09Drivers = []string{"H1-cold-cache-same-file", "H2-shared-caller-map", "H3-v-once-warm", "H4-unseen-paths-and-expressions", "H4b-path-cache-at-limit", "H5-include-slots-layout-filters", "H6-files-edited-underneath", "H7-renderstring-on-new", "H8-funcs-and-errors", "H9-components-with-v-once-and-wrappers", "H10-same-page-different-data", "H11-front-matter-page-with-template-variables-vue", "H12-front-matter-page-with-template-variables-load"}
+var c09Drivers = []string{"H1-cold-cache-same-file", "H2-shared-caller-map", "H3-v-once-warm", "H4-unseen-paths-and-expressions", "H4b-path-cache-at-limit", "H5-include-slots-layout-filters", "H6-files-edited-underneath", "H7-renderstring-on-new", "H8-funcs-and-errors", "H9-components-with-v-once-and-wrappers", "H10-same-page-different-data", "H11-front-matter-page-with-template-variables-vue", "H12-front-matter-page-with-template-variables-load", "H13-attribute-slices-with-spare-capacity-vue", "H14-attribute-slices-with-spare-capacity-load"}
 
 // c09Reset puts every piece of process-global state the engine has into its initial state.
 func c09Reset(driver string) {
